@@ -15,6 +15,7 @@ T3  every action on the SAME DataFrame, in two (thorough: three) different order
 from __future__ import annotations
 
 import contextlib
+import decimal
 import io
 import json
 import math
@@ -31,6 +32,12 @@ HEADER = """From SF Require Import C11.ActionsCheck.
 From Gen Require Import C01Facts C11Facts.
 Open Scope string_scope.
 Definition check := ActionsCheck.check gen_cfg gen_afacts path_of.
+"""
+# DataFrames the chain model does not compile (joins, aggregation, set operations): judged by the property's relation
+# between the actions and the implementation's own collect() only
+HEADER_OPAQUE = """From SF Require Import C11.ActionsCheck.
+Open Scope string_scope.
+Definition check := ActionsCheck.check_opaque.
 """
 
 TABLES = c01.TABLES
@@ -61,6 +68,8 @@ def py_val(x):
         x = x.item()
     if isinstance(x, bool):
         return x
+    if isinstance(x, decimal.Decimal) and x == x.to_integral_value():
+        return int(x)       # sum() of BIGINT is HUGEINT in DuckDB; pyarrow hands it over as a decimal
     if isinstance(x, float):
         if math.isnan(x):
             return None
@@ -287,6 +296,79 @@ def build(session, F, rows, steps):
     return df
 
 
+def opaque_frames(df, F):
+    """name -> (constructor, compare mode): C02/C06/C07-style DataFrames, incl. duplicate names after joins"""
+    l = df.select("a", "b")
+    r = df.select(F.col("a").alias("a"), F.col("s"))
+    return {
+        "join-using": (lambda: l.join(r, on="a"), "CBag"),
+        "join-cond-dup": (lambda: l.alias("l").join(r.alias("r"), F.col("l.a") == F.col("r.a")), "CBag"),
+        "left-join-dup": (lambda: l.alias("l").join(r.alias("r"), F.col("l.a") == F.col("r.a"), "left"), "CBag"),
+        "cross-join-dup": (lambda: df.select("a").crossJoin(df.where(F.col("a") == 2).select("a", "b")), "CBag"),
+        "groupBy-agg-ordered": (lambda: df.groupBy("s").agg(F.count("*").alias("n"), F.sum("b").alias("sb")).orderBy("s", "n", "sb"), "CSeq"),
+        "global-agg": (lambda: df.groupBy().agg(F.count("*").alias("n"), F.max("a").alias("m")), "CSeq"),
+        "union-ordered": (lambda: df.union(df).orderBy("a", "b", "s"), "CSeq"),
+        "intersect": (lambda: df.select("a").intersect(df.select("b")), "CBag"),
+        "exceptAll": (lambda: df.exceptAll(df.where(F.col("a") == 1)), "CBag"),
+    }
+
+
+def run_opaque(ctx, session, F, rnd, n_passes, devs, order_dev):
+    """actions on join / aggregation / set-operation DataFrames (no chain model): property relation + order independence"""
+    items, metas = [], []
+    for tname in ("t1", "t2", "empty"):
+        rows = TABLES[tname]
+        base_df = session.createDataFrame(rows, SCHEMA)
+        for name, (mk, cm) in opaque_frames(base_df, F).items():
+            try:
+                df = mk()
+                base = run_action(df, ("collect",))
+            except Exception as ex:
+                base = ("raised", ("build",), type(ex).__name__, str(ex)[:100])
+            if base[0] != "collect":
+                continue      # C02/C06/C07 judge whether the program itself runs
+            _, cn, cr = base
+            acts = action_list(rnd, len(cr))
+            first = None
+            for p in range(n_passes):
+                order = list(acts) + [("collect",)]
+                rnd.shuffle(order)
+                res = {a: run_action(df, a) for a in order}
+                first = first or res
+                for a in acts + [("collect",)]:
+                    ref = base if a == ("collect",) else first[a]
+                    same = res[a] == ref if (cm == "CSeq" or a[0] in ("count", "isEmpty", "collect", "toPandas", "toArrow")) \
+                        else _size(res[a]) == _size(ref)
+                    if not same:
+                        order_dev.append({"program": [name], "steps_json": [], "opaque": name, "table": tname, "rows": rows,
+                                          "action": a, "alone_or_first": ref, "in_order": [list(x) for x in order], "then": res[a]})
+            obs = [first[a] for a in acts]
+            try:
+                items.append(f"(mkC (mkFrame [] []) [] {cm} (Some ({listlit([strlit(c) for c in cn])}, "
+                             f"{listlit([rel.row_coq(r) for r in cr])})) {listlit([obs_coq(o) for o in obs])})")
+            except rel.NotExportable:
+                continue
+            metas.append({"name": name, "table": tname, "cn": cn, "cr": cr, "obs": obs, "acts": acts, "mode": cm})
+    res = ctx.cases("c11_opaque", HEADER_OPAQUE, items, per_file=6, result_ty="str", fn="check")
+    n = 0
+    for m, r in zip(metas, res):
+        if r is None or len(r) != len(m["obs"]):
+            continue
+        for j, o in enumerate(m["obs"]):
+            n += 1
+            if r[j] != "1":
+                sig = signature(o, m["cn"], m["cr"], True)
+                desc = {"program": [m["name"]], "opaque": m["name"], "steps_json": [], "table": m["table"], "rows": TABLES[m["table"]],
+                        "mode": m["mode"], "collect_names": m["cn"], "collect_rows": m["cr"], "action": list(m["acts"][j]),
+                        "returned": o, "spec_ok": False, "model_ok": None}
+                size = (50, len(TABLES[m["table"]]))
+                if sig not in devs or size < devs[sig][0]:
+                    devs[sig] = (size, desc)
+    ctx.coverage["opaque_frames(join/agg/set-op)"] = len(metas)
+    ctx.coverage["opaque_observations"] = n
+    return n
+
+
 def action_list(rnd, size):
     ns = [0, 1, 2, size + 3]
     acts = [("count",), ("isEmpty",), ("head",), ("first",), ("toPandas",), ("toArrow",)]
@@ -441,6 +523,11 @@ def run(ctx: core.Ctx):
         if len(ctx.samples) < 4 and len(m["steps"]) >= 2 and m["cr"]:
             ctx.sample({"program": desc0["program"], "table": m["table"], "mode": m["mode"], "verdict": r,
                         "actions": [list(a) for a in m["acts"]]})
+    n_opaque = run_opaque(ctx, session, F, rnd, n_passes, devs, order_dev2 := [])
+    if order_dev2 and not order_dev:
+        d = order_dev2[0]
+        ctx.deviation(f"C11/result-depends-on-action-order:{d['action'][0]}",
+                      "an action returns something else after other actions ran on the same DataFrame", d)
     for sig, (_, desc) in sorted(devs.items()):
         what = {"C11/head-0-returns-a-row": "head(0) returns the first row (n or 1); PySpark returns []",
                 "C11/show-without-rows-omits-column-names": "show() of an empty result / show(0) prints no column names; PySpark prints the header",
@@ -469,7 +556,7 @@ def run(ctx: core.Ctx):
     # ---- the generated renaming function against the real Row._unique_field_names, on sampled and adversarial names
     n_names = names_vs_impl(ctx, rnd)
     ctx.coverage.update({
-        "evaluations": n_obs + n_oracle + n_names, "distinct_nontrivial": n_nontriv,
+        "evaluations": n_obs + n_opaque + n_oracle + n_names, "distinct_nontrivial": n_nontriv,
         "rule": "case = (program, table) with >= 16 observed action results each, every action run in "
                 f"{n_passes} different orders on the same DataFrame; non-trivial = at least one operation and a result of >= 2 rows "
                 "(both non-empty tables contain NULLs, duplicate rows and ties); distinct by (program text, table)",
@@ -632,6 +719,8 @@ def replay(ctx: core.Ctx, rp: dict) -> int:
     from sqlframe.duckdb import DuckDBSession
     import sqlframe.duckdb.functions as F
     df = build(DuckDBSession(), F, [tuple(x) for x in r["rows"]], steps)
+    if r.get("opaque"):
+        df = opaque_frames(df, F)[r["opaque"]][0]()
     print("program:", [c01.step_str(s) for s in steps])
     print("sql:", df.sql(optimize=False))
     print("collect():", run_action(df, ("collect",)))
